@@ -60,7 +60,7 @@ func runC10(p *Program, e *Engine, r *Result, tier string) {
 				continue
 			}
 			arg := call.Call.Args[len(call.Call.Args)-1]
-			c10Classify(a, v, call, valueEdges(v.Ctx, arg, v.Cond))
+			c10Classify(a, v, call, valueEdges(v.Ctx, arg, v.Cond), sizeofRecord(a, df))
 		}
 	}
 	if n == 0 {
@@ -89,7 +89,7 @@ func errIsExcludes(cond DNF, e ValEdge, target func(string) bool) bool {
 	return g
 }
 
-func c10Classify(a *An, site *Visit, call *ssa.Call, edges []ValEdge) {
+func c10Classify(a *An, site *Visit, call *ssa.Call, edges []ValEdge, recSize int64) {
 	ro := a.Ro
 	pos := a.P.instrPos(call)
 	where := shortFn(call.Parent())
@@ -146,7 +146,19 @@ func c10Classify(a *An, site *Visit, call *ssa.Call, edges []ValEdge) {
 			kind = "constructed"
 			g, _ := e.Cond.everyConj(func(c Conj) bool {
 				return c.has(func(l Lit) bool {
-					return l.A.Kind == AkCmp && !l.Neg && (l.A.Op == "<" || l.A.Op == "==" || l.A.Op == "<=") && strings.Contains(l.A.Subj, ".Read(") && strings.HasSuffix(stripIDs(l.A.Subj), "#0")
+					if l.A.Kind != AkCmp || l.Neg || !strings.Contains(l.A.Subj, ".Read(") || !strings.HasSuffix(stripIDs(l.A.Subj), "#0") {
+						return false
+					}
+					// "fewer bytes than one record header": n < Sizeof, n <= Sizeof-1, or the n == 0 sub-case
+					switch {
+					case l.A.Op == "<" && l.A.K == sprintf("c:%d", recSize):
+						return true
+					case l.A.Op == "<=" && l.A.K == sprintf("c:%d", recSize-1):
+						return true
+					case l.A.Op == "==" && l.A.K == "c:0":
+						return true
+					}
+					return false
 				})
 			})
 			ok = g
